@@ -27,12 +27,13 @@ struct Config {
     double stickyP = 0.9;
     int pctDepth = 2;
     long pctHorizon = 20000;      // change points are drawn from [0, pctHorizon)
-    double pctEps = 0.03;         // probability of a uniformly random pick (fairness)
+    double pctEps = 0.05;         // probability of a uniformly random pick (fairness)
     double spuriousP = 0.0;       // per scheduling decision: wake one condvar waiter without signal
     double lateTimerP = 0.0;      // per timed wait/sleep: overshoot
     long long lateTimerMaxNs = 0;
     long long clockReadCostNs = 1000;
     long maxSteps = 4000000;
+    long starveLimit = 40;        // a runnable thread is scheduled at the latest after this many steps (0 = off)
     unsigned timeRoleMask = (1u << R_ENGINE) | (1u << R_PROTO); // roles whose runnability blocks timer jumps
     long long startTimeNs = 1000LL * 1000000000LL;
     std::vector<Freeze> freezes;
@@ -49,7 +50,7 @@ struct Actor {
 
 struct Stats {
     uint64_t steps = 0, switches = 0, schedHash = 0, timerJumps = 0, spurious = 0, lateTimers = 0,
-             freezesFired = 0, jumpsFired = 0, threadsCreated = 0, maxRunnable = 0, decisions = 0;
+             freezesFired = 0, jumpsFired = 0, starveRescues = 0, threadsCreated = 0, maxRunnable = 0, decisions = 0;
     long long jumpedNs = 0;               // total injected clock jump
     uint64_t pairs[S_NSITES * R_NROLES][2]; // bitset over (site,role)->(site,role) context switches
 };
@@ -68,10 +69,12 @@ void blockOn(const void* addr, int site);// park calling thread until wake(addr)
 void wake(const void* addr);
 bool allParked();                        // no thread runnable, none waiting on a timer
 bool anyRunnableExcept(int tid);
+bool isBlockedIdle(int tid);             // thread is parked in a sleep / condvar / join / event wait
 bool allOthersDone();                    // every thread except the caller has finished
 long long nextDeadline();                // earliest pending timer or -1
 const Stats& stats();
 std::string dumpThreads();
+void fatalExternal(const char* kind, const std::string& detail); // harness-detected budget overrun
 uint64_t rnd();                          // scheduler stream (do not use for workloads)
 
 /** Called on deadlock / step budget overrun. Must not return. */
